@@ -558,7 +558,8 @@ SPEC = {
         "default-value-of-forward-declaration-lost, found by the arity oracle: `hp(v, gp)` against `hp(int q, int d, thread int& gp)`)",
         "text leg: statements the rssl parser cannot read are outside the trip (today: the trampoline's `T out = f(...); return out;` — "
         "`out` is an rssl keyword — and braced struct lists `S { v, v }`; counted in the evidence's input distribution as "
-        "text:stmt:unreadable); signatures (`thread T& p`), struct and global declarations are covered by the tie (a) only; a literal "
+        "text:stmt:unreadable; also a statement in which the rssl reader sees a template call the tree does not have — `a < b ? x : c > (d)` is "
+        "read as `a<..>(d)` by rssl, as the comparison by C++, where a variable is never a template name: text:*:unreadable:template-ambiguity); signatures (`thread T& p`), struct and global declarations are covered by the tie (a) only; a literal "
         "with a negative value and the unary minus of its magnitude are one tree",
     ],
 }
